@@ -375,6 +375,91 @@ def evaluate(griffe, case):
     return "ok", problems, nontrivial
 
 
+# XM: the hierarchy spread over the modules of a package: the base dataclasses reach the subclass through an import (plain, renamed, dotted module, wildcard),
+# the decorator itself may only arrive through the wildcard import; a third module inherits once more.  CPython imports the package; same comparison.
+XM_ALLS = {"no-all": "", "all-classes": '__all__ = ["Base", "Mixin"]\n', "all-with-decorator": '__all__ = ["Base", "Mixin", "dataclass"]\n'}
+XM_IMPORTS = {"from-import": ("from .base import Base, Mixin\n", "Mixin, Base"), "wildcard": ("from .base import *\n", "Mixin, Base"),
+              "renamed": ("from pkg_c18x.base import Base as B, Mixin as M\n", "M, B"), "dotted-module": ("import pkg_c18x.base as pb\n", "pb.Mixin, pb.Base")}
+
+
+def _xm_cases():
+    for al in XM_ALLS:
+        for imp in XM_IMPORTS:
+            for deco in ("own-import", "through-wildcard"):
+                if deco == "through-wildcard" and (imp != "wildcard" or al == "all-classes"):
+                    continue
+                for grand in ("from-import", "wildcard"):
+                    for init in ("empty", "wildcard"):
+                        yield (al, imp, deco, grand, init)
+
+
+def _xm_files(case):
+    al, imp, deco, grand, init = case
+    base = ("import dataclasses\nfrom dataclasses import dataclass, field, KW_ONLY\n" + XM_ALLS[al] +
+            "@dataclass\nclass Base:\n    a: int\n    b: int = 0\n    _: KW_ONLY\n    k: int = 1\n@dataclass\nclass Mixin:\n    m: int = 5\n")
+    istmt, bases = XM_IMPORTS[imp]
+    child = istmt + ("from dataclasses import dataclass\n" if deco == "own-import" else "") + f"@dataclass\nclass Child({bases}):\n" + ("    c: int = 2\n" if deco == "own-import" else "    c: int = field(default=2)\n    _: KW_ONLY\n    d: int = 3\n") + f"class Plain({bases.split(', ')[1]}):\n    pass\n"
+    gimp = "from .child import Child\n" if grand == "from-import" else "from .child import *\n"
+    grand_src = gimp + "import dataclasses\n@dataclasses.dataclass\nclass Grand(Child):\n    g: int = 3\n"
+    return {"pkg_c18x/__init__.py": "" if init == "empty" else "from .grand import *\nfrom .child import *\n", "pkg_c18x/base.py": base, "pkg_c18x/child.py": child, "pkg_c18x/grand.py": grand_src}
+
+
+def _run_xm(griffe, acc, only=None):
+    import importlib
+    import sys
+
+    from _griffe.extensions import dataclasses as dcext
+
+    for case in _xm_cases():
+        if only is not None and case != only:
+            continue
+        files = _xm_files(case)
+        cd = {"case": ["XM", *case], "files": files}
+        with sandbox.scratch_dir("c18x") as d, sandbox.interpreter_state():
+            sandbox.write_tree(d, files)
+            sys.path.insert(0, d)
+            importlib.invalidate_caches()
+            try:
+                mods = {m: importlib.import_module(m) for m in ("pkg_c18x.base", "pkg_c18x.child", "pkg_c18x.grand")}
+                rejected = None
+            except Exception as e:  # noqa: BLE001
+                rejected = type(e).__name__
+            for k in [k for k in sys.modules if k.split(".")[0] == "pkg_c18x"]:
+                del sys.modules[k]
+            if rejected:
+                acc.case(cd, outcome="xm:rejected:" + rejected, nontrivial=False)
+                continue
+            dcext._dataclass_parameters.cache_clear()
+            try:
+                pkg = griffe.load("pkg_c18x", search_paths=[d], allow_inspection=False)
+            except Exception as e:  # noqa: BLE001
+                acc.violation(f"xm/load-raises-{type(e).__name__}", f"load raised {e!r}", cd, None, size=1)
+                continue
+            probs = []
+            for modname, cname in (("pkg_c18x.base", "Base"), ("pkg_c18x.child", "Child"), ("pkg_c18x.child", "Plain"), ("pkg_c18x.grand", "Grand")):
+                k = getattr(mods[modname], cname)
+                gc = pkg[modname.split(".", 1)[1]].members[cname]
+                own = "__init__" in vars(k)
+                gm = gc.members.get("__init__")
+                if own:
+                    exp = _sig_tuple(inspect.signature(vars(k)["__init__"]))
+                    got = None if gm is None else _gparams(gm.parameters)
+                    if got != exp:
+                        probs.append((f"init/{cname}", f"{modname}.{cname}.__init__: Griffe {got}, CPython {exp}"))
+                elif gm is not None:
+                    probs.append((f"init-spurious/{cname}", f"CPython generates no __init__ for {cname}, Griffe synthesises {_gparams(gm.parameters)}"))
+                if dataclasses.is_dataclass(k) != ("dataclass" in gc.labels):
+                    probs.append((f"label/{cname}", f"is_dataclass({cname})={dataclasses.is_dataclass(k)} but labels={sorted(gc.labels)}"))
+            acc.case(cd, outcome="xm:" + ("mismatch" if probs else "ok"), nontrivial=True)
+            acc.observe([p[0] for p in probs])
+            if probs:
+                # the top-most class with a problem explains the ones below it
+                what, detail = probs[0]
+                al, imp, deco, grand, init = case
+                via = {"Base": al, "Child": f"{imp}/{deco}", "Plain": imp, "Grand": f"grand-{grand}"}[what.split("/")[1]]
+                acc.violation(f"xm/{what}/{via}", detail, cd, None, size=1)
+
+
 def _reduce(griffe, case, prob, key):
     """Shrink while the same key persists."""
     def still(c):
@@ -430,6 +515,8 @@ def run_shard(shard, tier):
 
     acc = Acc()
     reduced: dict = {}
+    if shard == 0:
+        _run_xm(griffe, acc)
     for idx, case in enumerate(all_cases(tier)):
         if idx % NSHARDS != shard:
             continue
@@ -464,5 +551,9 @@ def replay(case):
     import griffe
 
     c = _detuple(case["case"])
+    if c and c[0] == "XM":
+        acc = Acc()
+        _run_xm(griffe, acc, only=tuple(c[1:]))
+        return [(k, v["summary"], v["detail"]) for k, v in acc.violations.items()]
     _r, probs, _ = evaluate(griffe, c)
     return [(_key(c, p), p[2], None) for p in probs if p[1] == probs[0][1]]
